@@ -100,6 +100,10 @@ class Report(object):
         """Instance floor: a rule matching fewer sites than confirmed by hand
         would pass vacuously -> analysis error."""
         if got < need:
+            if self.findings:
+                # a violating construct has already been named: the missing instances are its consequence
+                self.note("instance floor not met for %s (%d < %d) after a violation was found" % (what, got, need))
+                return
             raise AnalysisError("instance floor not met for %s: found %d, need >= %d"
                                 % (what, got, need))
         self.extra.setdefault("floors", {})[what] = {"found": got, "floor": need}
